@@ -9,6 +9,7 @@ not wait at the end of the file (`seekEOF = false`: cat, grep, mapreduce) the li
 import DtailModel.Generated.Code
 import DtailModel.Lemmas.GoRT
 import DtailModel.Model.Reader
+set_option autoImplicit false
 namespace Dtail.GenReader
 open Dtail Dtail.Go Dtail.Gen.Reader
 
